@@ -66,7 +66,7 @@ class RemoteValueSetpointShift(RemoteValue[float]):
         if self._internal_dpt_class == DPTValue1Count:
             try:
                 converted_value = round(value / self.setpoint_shift_step)
-            except (ValueError, OverflowError, ZeroDivisionError) as err:
+            except (ValueError, TypeError, OverflowError, ZeroDivisionError) as err:
                 raise ConversionError(
                     f"Could not serialize setpoint shift for {self.device_name}",
                     value=value,
